@@ -77,7 +77,7 @@ class LossEnv:
                     dat[c, f] = a
         return AT(((1,) if concrete_rows else (rows,)) + (nc, nf), dat)
 
-    def obs_batch(self, eq_type, d, m, rows="I", observed_params=None):
+    def obs_batch(self, eq_type, d, m, rows="I", observed_params=None, name='obs'):
         ncol = {'ODE': 1, 'statio_PDE': d, 'nonstatio_PDE': 1 + d}[eq_type]
         ents = []
         if eq_type in ('ODE', 'nonstatio_PDE'):
@@ -85,7 +85,7 @@ class LossEnv:
         if eq_type != 'ODE':
             ents += [Poly.atom(('X', j, frozenset({rows}))) for j in range(d)]
         pin = AT((rows, ncol), np.array(ents, dtype=object))
-        val = AT((rows, m), np.array([Poly.atom(('F', 'obs', k, frozenset({rows}))) for k in range(m)], dtype=object))
+        val = AT((rows, m), np.array([Poly.atom(('F', name, k, frozenset({rows}))) for k in range(m)], dtype=object))
         eqp = {k: AT((rows, 1), np.array([Poly.atom(('P', k, (), frozenset({rows}), False))], dtype=object))
                for k in (observed_params or [])}
         return {"pinn_in": pin, "val": val, "eq_params": eqp}
@@ -231,13 +231,15 @@ class SingleLoss:
 
     def __init__(self, E, eq_type, net_kind='PINN', d=2, m_u=1, m_res=1, terms=('dyn',), wkind='scalar',
                  eq_keys=('nu',), derivative_keys=None, bc='dirichlet', bc_ret='vector', bc_dim=None,
-                 per_facet=None, obs_slice=None, ic_t0=None):
+                 per_facet=None, obs_slice=None, ic_t0=None, net_name='u', unit_weights=False, dyn=None, params=None):
         self.E, self.eq_type, self.net_kind, self.d, self.m_u, self.m_res = E, eq_type, net_kind, d, m_u, m_res
         self.terms = set(terms)
         d_net = 0 if eq_type == 'ODE' else d
-        self.u = Net('u', net_kind, m_u, eq_type, d_net)
-        self.params = E.params({k: Pm(k) for k in eq_keys})
-        self.dyn = E.user_dynamic_loss(eq_type, m_res) if 'dyn' in self.terms else None
+        nn = net_name
+        self.net_name = nn
+        self.u = Net(nn, net_kind, m_u, eq_type, d_net)
+        self.params = params if params is not None else E.params({k: Pm(k) for k in eq_keys}, label=nn)
+        self.dyn = (dyn if dyn is not None else E.user_dynamic_loss(eq_type, m_res)) if 'dyn' in self.terms else None
         self.w = {}
         kw = {}
         if eq_type == 'ODE':
@@ -251,7 +253,7 @@ class SingleLoss:
             names = ('dyn_loss', 'norm_loss', 'boundary_loss', 'observations', 'initial_condition')
         for n in names:
             mm = {'dyn_loss': m_res}.get(n, m_u)
-            self.w[n] = weight(wkind if n in ('dyn_loss',) else 'scalar', mm, name='w_' + n)
+            self.w[n] = weight(wkind if n in ('dyn_loss',) else 'scalar', mm, name='w_' + n) if not unit_weights else 1.0
         self.weights = LW(**self.w)
         kw['loss_weights'] = self.weights
         if derivative_keys is not None:
@@ -262,7 +264,7 @@ class SingleLoss:
             cls = E.cls(E.mod_ode, 'LossODE')
             if 'ic' in self.terms:
                 self.t0 = K('t0') if ic_t0 is None else ic_t0
-                self.u0 = AT((m_u,), np.array([K(f'u0_{c}') for c in range(m_u)], dtype=object))
+                self.u0 = AT((m_u,), np.array([K(f'{nn}0_{c}') for c in range(m_u)], dtype=object))
                 kw['initial_condition'] = (self.t0, self.u0)
         else:
             cls = E.cls(E.mod_pde, 'LossPDEStatio' if eq_type == 'statio_PDE' else 'LossPDENonStatio')
@@ -271,18 +273,18 @@ class SingleLoss:
                 kw['norm_int_length'] = K('L')
             if 'bc' in self.terms:
                 if per_facet is not None:
-                    kw['omega_boundary_fun'] = {k: (user_fn('f_' + k, 1, bc_ret) if v is not None else None) for k, v in per_facet.items()}
+                    kw['omega_boundary_fun'] = {k: (user_fn(f'f{nn}_' + k, 1, bc_ret) if v is not None else None) for k, v in per_facet.items()}
                     kw['omega_boundary_condition'] = dict(per_facet)
                     if bc_dim is not None:
                         kw['omega_boundary_dim'] = {k: bc_dim for k in per_facet}
                 else:
                     ncomp = m_u if bc_dim is None else (len(list(range(m_u))[bc_dim]) if isinstance(bc_dim, slice) else 1)
-                    kw['omega_boundary_fun'] = user_fn('f', 1 if (bc_ret != 'vector' or 'neumann' in bc) else ncomp, bc_ret)
+                    kw['omega_boundary_fun'] = user_fn('f' if nn == 'u' else f'f{nn}', 1 if (bc_ret != 'vector' or 'neumann' in bc) else ncomp, bc_ret)
                     kw['omega_boundary_condition'] = bc
                     if bc_dim is not None:
                         kw['omega_boundary_dim'] = bc_dim
             if eq_type == 'nonstatio_PDE' and 'ic' in self.terms:
-                kw['initial_condition_fun'] = user_fn('u0', m_u)
+                kw['initial_condition_fun'] = user_fn('u0' if nn == 'u' else f'{nn}0', m_u)
         self.loss = cls(u=self.u, dynamic_loss=self.dyn, params=self.params, **kw)
 
     def batch(self, param_keys=(), observed_params=None, obs_rows=None):
@@ -293,14 +295,18 @@ class SingleLoss:
             rows = obs_rows or ("B" if param_keys else "I")
             sl = self.loss.fields.get('obs_slice')
             n_obs = len(list(range(self.m_u))[sl]) if isinstance(sl, slice) else self.m_u
-            obs = E.obs_batch(self.eq_type, self.d, n_obs, rows=rows, observed_params=observed_params)
+            obs = E.obs_batch(self.eq_type, self.d, n_obs, rows=rows, observed_params=observed_params,
+                              name='obs' if self.net_name == 'u' else f'obs_{self.net_name}')
         border = 'bc' in self.terms
+        # a per-sample parameter batch has one row per collocation row; the border batch must then have the same
+        # number of rows for the vmapped boundary functions to be applicable at all
+        brows = "B" if param_keys else "Bb"
         if self.eq_type == 'ODE':
             b = E.ode_batch(param_batch=pb, obs=obs)
         elif self.eq_type == 'statio_PDE':
-            b = E.statio_batch(self.d, border=border, param_batch=pb, obs=obs)
+            b = E.statio_batch(self.d, brows=brows, border=border, param_batch=pb, obs=obs)
         else:
-            b = E.nonstatio_batch(self.d, border=border, param_batch=pb, obs=obs)
+            b = E.nonstatio_batch(self.d, brows=brows, border=border, param_batch=pb, obs=obs)
         return freeze(b)
 
     def evaluate(self, param_keys=(), observed_params=None, params=None):
@@ -324,3 +330,134 @@ class SingleLoss:
         R = eqf(*pts, self.u, self.params)
         s = weighted_sq_sum(w, R)
         return mean_over(tuple(a for a in s.axes), s)
+
+
+class SystemLoss:
+    """abstract SystemLossODE / SystemLossPDE built through the repository's constructor"""
+
+    def __init__(self, E, eq_type, net_kind='PINN', unknowns=('a', 'b'), equations=('e1', 'e2'), d=2, terms=('dyn', 'ic'),
+                 weights='scalar', eq_keys=('nu',), m_res=None):
+        self.E, self.eq_type, self.net_kind, self.d = E, eq_type, net_kind, d
+        self.unknowns, self.equations, self.terms = tuple(unknowns), tuple(equations), set(terms)
+        d_net = 0 if eq_type == 'ODE' else d
+        self.u_dict = {k: Net(k, net_kind, 1, eq_type, d_net) for k in unknowns}
+        self.params = E.params_dict({k: k for k in unknowns}, {k: Pm(k) for k in eq_keys})
+        self.m_res = m_res or {e: 1 + (i % 2) for i, e in enumerate(equations)}
+        self.dyn = {e: E.user_dynamic_loss(eq_type, self.m_res[e], name=f'R_{e}', multi=list(unknowns)) for e in equations} \
+            if 'dyn' in self.terms else {}
+        sc = lambda n: to_at(K(n))
+        if eq_type == 'ODE':
+            names = ('dyn_loss', 'initial_condition', 'observations')
+            LWD = E.cls(E.mod_lw, 'LossWeightsODEDict')
+        else:
+            names = ('dyn_loss', 'norm_loss', 'boundary_loss', 'observations', 'initial_condition')
+            LWD = E.cls(E.mod_lw, 'LossWeightsPDEDict')
+        self.names = names
+        self.wspec = {}
+        for i, n in enumerate(names):
+            keys = equations if n == 'dyn_loss' else unknowns
+            kind = weights if isinstance(weights, str) else weights.get(n, 'scalar')
+            if kind == 'scalar':
+                v = sc('w_' + n)
+                self.wspec[n] = ({k: v.data[()] for k in keys}, v)
+            elif kind == 'dict':
+                dct = {k: sc(f'w_{n}_{k}') for k in keys}
+                self.wspec[n] = ({k: x.data[()] for k, x in dct.items()}, dct)
+            elif kind == 'none':
+                self.wspec[n] = ({k: Poly.const(0) for k in keys}, None)
+            elif kind == 'float':
+                self.wspec[n] = ({k: Poly.const(2) for k in keys}, 2.0)
+            else:
+                raise ValueError(kind)
+        lw = LWD(**{n: self.wspec[n][1] for n in names})
+        # per-unknown specifications through single-loss builders (only used to produce the constructor arguments
+        # and the per-unknown reference terms)
+        self.singles = {}
+        single_terms = tuple(t for t in self.terms if t != 'dyn')
+        for k in unknowns:
+            self.singles[k] = SingleLoss(E, eq_type, net_kind, d=d, m_u=1, terms=single_terms, eq_keys=eq_keys, net_name=k,
+                                         unit_weights=True)
+        kw = {}
+        if eq_type == 'ODE':
+            cls = E.cls(E.mod_ode, 'SystemLossODE')
+            if 'ic' in self.terms:
+                kw['initial_condition_dict'] = {k: self.singles[k].loss.fields['initial_condition'] for k in unknowns}
+        else:
+            cls = E.cls(E.mod_pde, 'SystemLossPDE')
+            f = lambda name: {k: self.singles[k].loss.fields.get(name) for k in unknowns}
+            if 'bc' in self.terms:
+                kw['omega_boundary_fun_dict'] = f('omega_boundary_fun')
+                kw['omega_boundary_condition_dict'] = f('omega_boundary_condition')
+            if 'norm' in self.terms:
+                kw['norm_samples_dict'] = f('norm_samples')
+                kw['norm_int_length_dict'] = f('norm_int_length')
+            if 'ic' in self.terms and eq_type == 'nonstatio_PDE':
+                kw['initial_condition_fun_dict'] = f('initial_condition_fun')
+        self.loss = cls(u_dict=self.u_dict, dynamic_loss_dict=self.dyn, loss_weights=lw, params_dict=self.params, **kw)
+
+    def batch(self, param_keys=()):
+        E = self.E
+        pb = E.param_batch(param_keys) if param_keys else None
+        obs = None
+        if 'obs' in self.terms:
+            rows = "B" if param_keys else "I"
+            obs = {k: E.obs_batch(self.eq_type, self.d, 1, rows=rows, name=f'obs_{k}') for k in self.unknowns}
+        border = 'bc' in self.terms
+        # a per-sample parameter batch has one row per collocation row; the border batch must then have the same
+        # number of rows for the vmapped boundary functions to be applicable at all
+        brows = "B" if param_keys else "Bb"
+        if self.eq_type == 'ODE':
+            b = E.ode_batch(param_batch=pb, obs=obs)
+        elif self.eq_type == 'statio_PDE':
+            b = E.statio_batch(self.d, brows=brows, border=border, param_batch=pb, obs=obs)
+        else:
+            b = E.nonstatio_batch(self.d, brows=brows, border=border, param_batch=pb, obs=obs)
+        return freeze(b)
+
+    def evaluate(self, param_keys=()):
+        return self.loss.evaluate(freeze(self.params), self.batch(param_keys))
+
+    def expected(self, param_keys=()):
+        """per-term reference: dyn = sum_e w_e Mean(sum_c R_ec^2); others = sum_u w_u * (single-network term of u)"""
+        out = {}
+        rows = "B"
+        acc = Poly()
+        for e in self.equations if 'dyn' in self.terms else ():
+            eqf = self.dyn[e].fields['equation']
+            w = self.wspec['dyn_loss'][0][e]
+            pd = self.params
+            if param_keys:
+                eq = dict(pd.fields['eq_params'])
+                for k in param_keys:
+                    eq[k] = AT((1,), np.array([Poly.atom(('P', k, (), frozenset({rows}), False))], dtype=object))
+                pd = pd.replace_fields({'eq_params': eq})
+            if self.net_kind == 'PINN':
+                R = eqf(*row_point(self.eq_type, self.d), self.u_dict, pd)
+                s = weighted_sq_sum(1, R)
+                acc = acc + w * mean_over((rows,), prepend(s, rows)).data[()]
+            else:
+                pts = (batch_x(self.d),) if self.eq_type == 'statio_PDE' else (batch_t(), batch_x(self.d))
+                R = eqf(*pts, self.u_dict, pd)
+                s = weighted_sq_sum(1, R)
+                acc = acc + w * mean_over(tuple(s.axes), s).data[()]
+        out['dyn_loss'] = acc
+        key_of = {'initial_condition': 'ic', 'observations': 'obs', 'norm_loss': 'norm', 'boundary_loss': 'bc'}
+        for n in self.names:
+            if n == 'dyn_loss':
+                continue
+            acc = Poly()
+            if key_of[n] in self.terms and not (n == 'initial_condition' and self.eq_type == 'statio_PDE'):
+                for k in self.unknowns:
+                    S = self.singles[k]
+                    single_terms = tuple(t for t in self.terms if t != 'dyn')
+                    Sk = SingleLoss(self.E, self.eq_type, self.net_kind, d=self.d, m_u=1, terms=single_terms,
+                                    eq_keys=tuple(self.params.fields['eq_params'].keys()), net_name=k, unit_weights=True)
+                    _, terms = Sk.loss.evaluate(freeze(Sk.params), self._single_batch(k, param_keys))
+                    acc = acc + self.wspec[n][0][k] * to_at(terms[n]).data[()]
+            out[n] = acc
+        return out
+
+    def _single_batch(self, k, param_keys):
+        b = self.batch(param_keys)
+        obs = b.fields.get('obs_batch_dict')
+        return b.replace_fields({'obs_batch_dict': obs[k] if obs is not None else None})
